@@ -14,6 +14,7 @@
 #define VERIF_HARNESS_C07_COMMON_HPP
 
 #include "viewcommon.hpp"
+#include <stdexcept>
 #include "nmtools/array/view/transpose.hpp"
 #include "nmtools/array/view/slice.hpp"
 #include "nmtools/array/view/ufunc.hpp"
@@ -52,6 +53,7 @@ namespace c07
         {
             vh::dyn_t<T> a;
             a.resize(vh::to_shape(shape));
+            if ((long long)data.size() != vh::prod(shape)) throw std::runtime_error("operand data/shape mismatch");
             for (size_t k = 0; k < data.size(); k++) a.data()[k] = data[k];
             return a;
         }
@@ -79,10 +81,61 @@ namespace c07
         }
     }
 
+    // vh::emit_view_all reads the raw buffer of the column-major result through data(); a bool result lives in a
+    // std::vector<bool> whose data() does not compile.  Same record for bool-valued views, with an empty CB section.
+    template <typename view_t>
+    void emit_eval_routes_bool(Out& out, const view_t& v)
+    {
+        if constexpr (meta::is_maybe_v<view_t>) {
+            if (!nm::has_value(v)) { out.tok("E N C N O N"); return; }
+            emit_eval_routes_bool(out, nm::unwrap(v));
+        } else if constexpr (meta::is_num_v<view_t>) {
+            vh::emit_eval_routes(out, v);
+        } else {
+            out.tok("E");
+            { auto r = na::eval(v, nm::None, nm::None, na::RowMajorResolver); vh::emit_array(out, r); }
+            out.tok("C");
+            { auto r = na::eval(v, nm::None, nm::None, na::ColumnMajorResolver); vh::emit_array(out, r); }
+            out.tok("CB"); out.i(0);
+            out.tok("O");
+            vh::dyn_t<int> o;
+            const auto shape = nm::shape(v);
+            auto sv = vh::to_vec(shape);
+            auto n = vh::prod(sv);
+            if (sv.size() == 0 || n > vh::MAX_EMIT) { out.tok("N"); }
+            else {
+                o.resize(vh::to_shape(sv));
+                for (long long k = 0; k < n; k++) o.data()[k] = (int)vh::SENTINEL;
+                na::eval(v, nm::None, o, na::RowMajorResolver);
+                vh::emit_array(out, o);
+            }
+        }
+    }
+
+    template <typename view_t>
+    struct inner_elem { using type = meta::get_element_type_t<view_t>; };
+    template <typename view_t>
+    struct inner_elem<nmtools_maybe<view_t>> { using type = meta::get_element_type_t<view_t>; };
+
+    template <typename view_t>
+    void emit_view_all_any(Out& out, const view_t& v)
+    {
+        using elem_t = typename inner_elem<view_t>::type;
+        if constexpr (std::is_same_v<elem_t, bool>) {
+            out.tok("M");
+            out.i(meta::is_maybe_v<view_t> ? 1 : 0);
+            out.tok("V");
+            vh::emit_array(out, v);
+            emit_eval_routes_bool(out, v);
+        } else {
+            vh::emit_view_all(out, v);
+        }
+    }
+
     template <typename R, typename view_t>
     void emit(Out& out, const view_t& v)
     {
-        vh::emit_view_all(out, v);
+        emit_view_all_any(out, v);
         out.tok("X");
         out.tok(vh::type_tag<R>());
         out.tok(access_tag<view_t>());
